@@ -300,6 +300,23 @@ impl SubCheck for History {
                     Op::Convert { probe: p2, to_local: !dir, new_thread: false },
                 ]
             });
+        let env_spec_c = prop_oneof![
+            3 => (0usize..N_CUSTOM).prop_map(Spec::AbsPath),
+            1 => (0usize..SYSTEM_ZONES.len()).prop_map(Spec::ZoneName),
+            1 => (0usize..RULES.len()).prop_map(Spec::Rule),
+        ];
+        // chain: after a change, conversions follow one another at short intervals until well past one
+        // second - a reuse window that restarts with every use would never look at the environment again
+        let chain = (env_spec_c.clone(), env_spec_c, 150u32..420, 0u8..8, any::<bool>()).prop_map(|(x, y, gap, p, dir)| {
+            let mut v = vec![Op::SetTz(x), Op::Convert { probe: p, to_local: dir, new_thread: false }, Op::Wait(1100), Op::Convert { probe: p, to_local: dir, new_thread: false }, Op::SetTz(y)];
+            let mut total = 0;
+            while total < 1500 {
+                v.push(Op::Wait(gap));
+                total += gap;
+                v.push(Op::Convert { probe: p, to_local: dir, new_thread: false });
+            }
+            v
+        });
         // toggle: X -> (unset | empty | garbage) -> the very same X, long waits: a cache key that is not
         // updated when the source kind changes only shows when the same string returns
         let env_spec = prop_oneof![
@@ -339,7 +356,7 @@ impl SubCheck for History {
         });
         let free = proptest::collection::vec(op, 3..14);
         Some(
-            prop_oneof![2 => free, 2 => template, 3 => template3, 2 => toggle, 2 => inside]
+            prop_oneof![2 => free, 2 => template, 3 => template3, 2 => toggle, 2 => inside, 1 => chain]
                 .prop_map(|mut ops| {
                     // at most three long waits per history; make sure it ends with conversions
                     let mut longs = 0;
